@@ -545,6 +545,56 @@ def run(P, rep, tier):
                    ('%s is the arrival counter of the last rendezvous of the worker loop (%s in %s) and %s sets it back to 0 without having taken part in a rendezvous of the new frame first: a thread that has incremented it but not yet polled the final value reads 0, polls forever, and the frame (and the teardown) never completes' % (t[1].split('.')[1], stage_fn, loop_fn, g.name)))
     rep.floor('C09.BARRIERRESET', 3)
 
+    # ---------------- STRIPES: the multi-threaded per-row variants of the restoration boundary save must visit the stripes the frame-level
+    # (single-thread) variant visits.  Stripes start RESTORATION_UNIT_OFFSET lines above the 64-line grid, so the stripe holding the
+    # last line of a picture of height H is (H + offset - 1) >> 6, and the last superblock row may have to save for one stripe more than
+    # it has 64-line rows.  Decided by evaluating the extracted expressions (finite evaluation over sample heights, no execution):
+    #  - a stripe index computed from the frame height equals (H + 7) >> 6 for H in a sample that covers every residue class that matters
+    #  - a per-row stripe loop keeps going for the last superblock row beyond its per-row count (the exit is the end-of-picture test)
+    from rules.C20 import _ev as _pev
+    savers = ('save_deblock_boundary_lines', 'save_cdef_boundary_lines')
+    nst = 0
+    for g in P.fns:
+        if g.lib != 'Decoder' or g.nocfg or g.file.endswith('EbDecRestoration.c'):
+            continue
+        if not any(True for _ in g.calls(savers)):
+            continue
+        for dv in g.events(('decl',)):
+            e = dv.get('e')
+            if dv['n'] != 'frame_stripe' or e is None:
+                continue
+            uses_h = any(x[0] == 'm' and x[1].endswith('.frame_height') for x in subexprs(e))
+            if uses_h:
+                nst += 1
+                bad = []
+                for H in (64, 120, 121, 122, 127, 128, 186, 192, 250, 256):
+                    env = {x[1]: H for x in subexprs(e) if x[0] == 'm' and x[1].endswith('.frame_height')}
+                    env.update({x[1]: 1 for x in subexprs(e) if x[0] == 'm' and x[1].endswith('.sb_rows')})
+                    v = _pev(e, env, {'sb_row': 0})
+                    if v is not None and v != (H + 7) >> 6:
+                        bad.append('H=%d: %d, last stripe is %d' % (H, v, (H + 7) >> 6))
+                rep.ob('C09.STRIPES', '%s/last-stripe-index' % g.name, not bad, g.loc(dv),
+                       'the index of the last stripe is (height + offset - 1) >> 6 for every sample height' if not bad else
+                       ('%s takes %s as the index of the stripe holding the last line: wrong for %s - the boundary lines of the real last stripe are never saved and loop restoration reads what nobody wrote (multi-threaded output differs from single-threaded)' % (g.name, pstr(strip(e))[:70], '; '.join(bad[:3]))))
+            else:
+                # per-row enumeration: the enclosing loop must stay open for the last superblock row
+                loops = [(k, c, l) for k, c, l in g.ctl_chain(dv) if k == 'for' and c is not None and 'row_cnt' in pstr(c) or k == 'for' and c is not None and any(x[0] == 'v' and x[1] in pstr(strip(e)) for x in subexprs(c))]
+                if not loops:
+                    continue
+                nst += 1
+                k, c, l = loops[0]
+                loc0 = {x[1]: 9 for x in subexprs(c) if x[0] == 'v'}        # far beyond the per-row count
+                loc0.update({'num64s': 1, 'last_sb_row': 1})
+                for x in subexprs(c):
+                    if x[0] == 'v' and 'last' in x[1]:
+                        loc0[x[1]] = 1
+                v = _pev(c, {}, loc0)
+                ok = v is not None and v != 0
+                rep.ob('C09.STRIPES', '%s/last-row-open' % g.name, ok, g.loc(dv),
+                       'the stripe loop of the last superblock row continues until the end-of-picture test' if ok else
+                       ('%s enumerates the stripes of a superblock row under %s, which ends after the per-row count also for the last row: the extra stripe of a picture whose height is a multiple of 64 (or 57..63 above one) is never saved' % (g.name, pstr(strip(c))[:60])))
+    rep.floor('C09.STRIPES', 2)
+
     # ---------------- SEM
     waits, posts = {}, {}
     for f in dec:
